@@ -21,7 +21,7 @@ structure RS where
 deriving Repr, Inhabited
 
 def rinit (k : Kind) (w : Nat) : RS :=
-  { buf := List.replicate w (nullValue k), pos := 0, nSeen := 0, sum := 0, nn := 0, best := .nan }
+  { buf := List.replicate w (nullValue k), pos := 0, nSeen := 0, sum := 0, nn := 0, best := nullValue k }
 
 def valInt : Val → Int
   | .num n => n
